@@ -278,6 +278,7 @@ class Exec:
         if self.entry is not None:
             for k, v in self.entry.store.items():
                 mv.setdefault(k, v)
+        extra_hyps = list(extra_hyps) + ground_links(goal, "SLICE" in self.c.opaque or "slice" in self.c.opaque)
         self.obligations.append(
             Obligation(name, st.hyps() + list(extra_hyps), goal, self.qualname, kind, line, "unsat", note, mv)
         )
@@ -378,7 +379,13 @@ class Exec:
         for nm, e in self.c.requires.items():
             st.assume(self.spec_bool(e, st))
         self.vacuity(st, "requires")
+        self.cut_base = st.clone()
         results = self.exec_block(fn.body, st)
+        if set(self.c.asserts) - getattr(self, "asserts_seen", set()):
+            self.notes.append(f"{self.qualname}: assertion anchors not found in the current source: {sorted(set(self.c.asserts) - getattr(self, 'asserts_seen', set()))}")
+        if self.c.cuts and set(self.c.cuts) - getattr(self, "cut_seen", set()):
+            # a cut point is a proof aid: when its statement is gone the paths simply run on to the next cut (whose clauses still have to hold)
+            self.notes.append(f"{self.qualname}: cut anchors not found in the current source (no cut made there): {sorted(set(self.c.cuts) - self.cut_seen)}")
         for s, flow, val in results:
             if flow == Flow.NEXT:
                 flow, val = Flow.RETURN, VNone()
@@ -410,6 +417,8 @@ class Exec:
     def check_post(self, st: State, val: V):
         st = st.clone()
         st.store["result"] = val
+        for hnt in self.c.hints.get("return", []):
+            st.assume(self.lemma_instance(hnt, st))
         for nm, e in self.c.ensures.items():
             self.oblige(st, "post", nm, self.spec_bool(e, st))
         if self.c.ensures_each:
@@ -486,7 +495,12 @@ class Exec:
     def exec_block(self, stmts, st: State):
         """Returns [(state, flow, value)]."""
         states = [(st, Flow.NEXT, None)]
+        top = self.call_depth == 0 and stmts is self.fn.body and bool(self.c.cuts)
+        if top:
+            self.cut_seen = set()
         for stmt in stmts:
+            if top:
+                states = self.maybe_cut(stmt, states)
             nxt = []
             for s, flow, val in states:
                 if flow != Flow.NEXT:
@@ -498,16 +512,101 @@ class Exec:
                 raise Unsupported("path explosion (>4000 paths)")
         return states
 
+    def maybe_cut(self, stmt, states):
+        """Straight-line cut point: the clauses are proved on every path reaching the statement, then ONE state continues that knows only the
+        clauses (plus the definitional facts of the encoding): locals and heap fields on which the incoming paths differ are havocked."""
+        src = ast.unparse(stmt)
+        anchor = next((a for a in self.c.cuts if src.startswith(a)), None)
+        if anchor is None:
+            return states
+        if anchor in self.cut_seen:
+            raise Unsupported(f"cut anchor {anchor!r} matches more than one top-level statement")
+        self.cut_seen.add(anchor)
+        clauses = dict(self.c.cuts[anchor])
+        if self.c.collector:
+            clauses.update(self.collector_loop().inv)
+        inc = [s for s, f, _ in states if f == Flow.NEXT]
+        rest = [(s, f, v) for s, f, v in states if f != Flow.NEXT]
+        if not inc:
+            return states
+        tag = "cut:" + anchor
+        for s in inc:
+            for hnt in self.c.hints.get(anchor, []):
+                s.assume(self.lemma_instance(hnt, s))
+            for nm, e in clauses.items():
+                self.oblige(s, f"cut/{anchor}", nm, self.spec_bool(e, s), stmt.lineno)
+        m = inc[0].clone()
+        m.pending, m.guards = [], []
+        base = self.cut_base
+        seen = {c.get_id() for c in base.path}
+        m.path = list(base.path)
+        same = lambda a, b: a is b or (hasattr(a, "z") and hasattr(b, "z") and type(a) is type(b) and a.z.eq(b.z))  # noqa: E731
+        for nm in list(m.store):
+            vs = [s.store.get(nm) for s in inc]
+            if any(v is None for v in vs):
+                del m.store[nm]
+            elif not all(same(vs[0], v) for v in vs[1:]):
+                m.store[nm] = self.fresh_like(vs[0], f"{nm}@{tag}", m)
+        hw = [f for f in m.heap if not all(s.heap[f].eq(inc[0].heap[f]) for s in inc[1:])]
+        if not all(s.alloc.eq(inc[0].alloc) for s in inc[1:]):
+            hw.append("@alloc")
+            m.alloc = self.entry.alloc
+        self.havoc(m, [], hw, tag)
+        n0 = min(len(s.calllog) for s in inc)
+        m.calllog = [e for i, e in enumerate(inc[0].calllog[:n0]) if all(s.calllog[i] is e for s in inc)]
+        # definitional facts (fact()) survive the cut when they speak only about symbols that are still alive (entry symbols, the merged
+        # locals and heap); path conditions, and facts about the dead temporaries of the merged paths, do not
+        from .solve import _consts
+        from .values import V as _V
+
+        memo = {}
+        alive = set()
+        for c in base.path:
+            alive |= _consts(c, memo)
+
+        def terms_of(v):
+            if isinstance(v, _V):
+                for a in vars(v).values():
+                    if isinstance(a, z3.ExprRef):
+                        yield a
+                    elif isinstance(a, (list, tuple)):
+                        for x in a:
+                            yield from terms_of(x)
+                    elif isinstance(a, _V):
+                        yield from terms_of(a)
+
+        for v in list(m.store.values()) + list(self.entry.store.values()):
+            for t_ in terms_of(v):
+                alive |= _consts(t_, memo)
+        for h_ in list(m.heap.values()) + [m.alloc]:
+            alive |= _consts(h_, memo)
+        for s in inc:
+            for c in s.path:
+                if c.get_id() in s.facts_seen and c.get_id() not in seen and _consts(c, memo) <= alive:
+                    seen.add(c.get_id())
+                    m.path.append(c)
+                    m.facts_seen.add(c.get_id())
+        for nm, e in clauses.items():
+            m.assume(self.spec_bool(e, m))
+        self.cut_base = m.clone()
+        self.vacuity(m, f"cut/{anchor}")
+        return rest + [(m, Flow.NEXT, None)]
+
     def flush(self, st: State, results=None):
         """Turn pending potential raises of the just-evaluated statement into raising paths."""
         out = []
-        for cond, exc, desc, line in st.pending:
+        neg = set()
+        for cond, exc, desc, line, snap in st.pending:
             rs = st.clone()
             rs.pending = []
             rs.guards = []
+            rs.store, rs.heap, rs.alloc, rs.objattrs, rs.calllog = dict(snap[0]), dict(snap[1]), snap[2], {k: dict(v) for k, v in snap[3].items()}, list(snap[4])
+            rs.path = [c for i, c in enumerate(st.path) if i < snap[5] or c.get_id() in st.facts_seen or id(c) in neg]
             rs.assume(cond)
             out.append((rs, Flow.RAISE, (exc, desc, line)))
-            st.assume(z3.Not(cond))
+            nc = z3.Not(cond)
+            neg.add(id(nc))
+            st.path.append(nc)
         st.pending = []
         return out
 
@@ -516,6 +615,27 @@ class Exec:
         if m is None:
             raise Unsupported(f"statement {type(stmt).__name__} at line {stmt.lineno}")
         self.cur_line = stmt.lineno
+        if self.c.asserts and self.call_depth == 0:
+            src_ = ast.unparse(stmt)
+            for anchor, cl in self.c.asserts.items():
+                if src_.startswith(anchor):
+                    self.asserts_seen = getattr(self, "asserts_seen", set()) | {anchor}
+                    for nm, e in cl.items():
+                        z = self.spec_bool(e, st)
+                        self.oblige(st, f"assert/{anchor}", nm, z, stmt.lineno)
+                        st.assume(z)
+        if self.c.hints and self.call_depth == 0:
+            src = None
+            for anchor, hs in self.c.hints.items():
+                if anchor == "return" or anchor in self.c.cuts:
+                    continue
+                src = src if src is not None else ast.unparse(stmt)
+                if src.startswith(anchor):
+                    for hnt in hs:
+                        try:
+                            st.assume(self.lemma_instance(hnt, st))
+                        except UndefinedName:
+                            pass  # the hint mentions a local that does not exist on this path: no instance (fewer assumptions)
         return m(stmt, st)
 
     def stmt_Global(self, stmt, st):
@@ -934,20 +1054,54 @@ class Exec:
         return out
 
     def lemma_instance(self, hint: str, st: State, extra=None):
-        """`LEMMA-NAME: expr` - an instance of a registered lemma (proved separately as lemma/<name>); recorded as used."""
+        """`LEMMA: [forall v w: ] x=<expr>; y=<expr>` - the instance  hyps[x,y := ...] ==> goal[x,y := ...]  of a registered lemma (proved separately as
+        lemma/<name>, or a listed axiom).  The formula is built from the LEMMA's statement; the hint only supplies the terms (quantified over v, w if asked)."""
         from .contract import LEMMAS
 
-        name, _, expr = hint.partition(":")
+        name, _, rest = hint.partition(":")
         name = name.strip()
         if name not in LEMMAS:
             raise AnchorMismatch(f"hint refers to unknown lemma {name}")
+        lm = LEMMAS[name]
         self.used_lemmas = getattr(self, "used_lemmas", set()) | {name}
-        if LEMMAS[name].trusted:
-            self.assumed.add(f"trusted lemma {name}: {LEMMAS[name].goal}  [{LEMMAS[name].notes}]")
+        if lm.trusted:
+            self.assumed.add(f"trusted lemma {name}: {' and '.join(lm.hyps) or 'True'} ==> {lm.goal}  [{lm.notes}]")
+        rest = rest.strip()
+        bound = []
+        if rest.startswith("forall "):
+            names_, _, rest = rest[7:].partition(":")
+            bound = names_.split()
+        binds = {}
+        for part in split_top(rest, ";"):
+            k, _, v = part.partition("=")
+            binds[k.strip()] = v.strip()
+        if set(binds) != set(lm.vars):
+            raise AnchorMismatch(f"hint for lemma {name} must bind exactly {sorted(lm.vars)} (got {sorted(binds)})")
         saved = getattr(self, "force_uf", False)
         self.force_uf = True  # lemma instances speak about the operation SYMBOLS (SLICE, LOWER, ...): no native definitions are unfolded
         try:
-            return self.spec_bool(expr, st, extra)
+            src = st.clone()
+            bvars = []
+            for bn in bound:
+                bz = fresh(bn, I)
+                bvars.append(bz)
+                src.store[bn] = VInt(bz)
+            if bound:
+                src.in_binder += 1
+            view = src.clone()
+            view.old = view
+            n_src = len(src.path)
+            view.store = {k: self.spec_val(e, src, extra) for k, e in binds.items()}
+            view.path = list(src.path)
+            view.facts_seen |= src.facts_seen
+            body = self.spec_bool(lm.goal, view)
+            if lm.hyps:
+                body = z3.Implies(z3.And(*[self.spec_bool(h, view) for h in lm.hyps]), body)
+            # ground facts of the encoding met while building the instance (lengths of LOWER(..) etc.) belong to the caller's state
+            for c in view.path[min(n_src, len(st.path)):]:
+                if c.get_id() in view.facts_seen and not any(any(bz.eq(x) for bz in bvars) for x in _subterms(c)):
+                    st.fact(c)
+            return z3.ForAll(bvars, body) if bvars else body
         finally:
             self.force_uf = saved
 
@@ -1143,7 +1297,9 @@ class Exec:
         if getattr(self, "spec_mode", False):
             return
         g = z3.And(*st.guards, cond) if st.guards else cond
-        st.pending.append((g, exc, desc, getattr(self, "cur_line", 0)))
+        # the raising path continues from the state AT the raise: later effects of the same statement (a store through a method call, a walrus) have not happened
+        snap = (dict(st.store), dict(st.heap), st.alloc, {k: dict(v) for k, v in st.objattrs.items()}, list(st.calllog), len(st.path))
+        st.pending.append((g, exc, desc, getattr(self, "cur_line", 0), snap))
 
     # ------------------------------------------------------------------ expressions
     def eval(self, node, st: State) -> V:
@@ -1209,7 +1365,7 @@ class Exec:
             return VPy(getattr(builtins, name), "builtins." + name)
         if name in SPECS:
             return VPy(SPECS[name], "spec." + name)
-        raise Unsupported(f"name {name}")
+        raise UndefinedName(f"name {name}")
 
     def expr_Name(self, node, st):
         return self.lookup(node.id, st)
@@ -1974,19 +2130,19 @@ class Exec:
             d0 = self.spec_val(c.decreases, self.entry)
             d1 = self.spec_val(c.decreases, pre_view)
             self.oblige(pre_view, "dec/rec", f"L{getattr(self, 'cur_line', 0) - self.fn.lineno}", self.lex_less(d1, d0), getattr(self, "cur_line", 0))
-        # --- exceptional exits
-        for exc, cond in list(c.raises.items()) + list(c.raises_iff.items()):
-            cz = self.spec_bool(cond, pre_view)
-            if exc in c.raises_iff:
-                self.raise_if(st, cz, exc, f"call {short}")
-            else:
-                flag = fresh(f"raises_{exc}", B)
-                self.raise_if(st, z3.And(flag, cz), exc, f"call {short}")
         # --- havoc what the callee may modify
         if c.modifies:
             for f, targets in c.modifies.items():
                 flds = [f] + (["nchildren"] if f == "children" else [])
                 for fld in flds:
+                    tvs = [self.spec_val(ex, pre_view) for ex in targets] if "*" not in targets else []
+                    if tvs and all(isinstance(tv, VRef) for tv in tvs):
+                        # single objects: new == old except at the targets, written as stores (no quantified frame needed)
+                        cur = st.heap[fld]
+                        for tv in tvs:
+                            cur = z3.Store(cur, tv.z, fresh(f"v_{fld}@call", cur.sort().range()))
+                        st.heap[fld] = cur
+                        continue
                     newarr = fresh(f"H_{fld}@call", st.heap[fld].sort())
                     r = fresh("r", I)
                     conds = [0 <= r, r < st.alloc]
@@ -2016,6 +2172,14 @@ class Exec:
             st.alloc = a
         if c.modifies or c.fresh_nodes:
             self.heap_type_invariants(st)
+        # --- exceptional exits
+        for exc, cond in list(c.raises.items()) + list(c.raises_iff.items()):
+            cz = self.spec_bool(cond, pre_view)
+            if exc in c.raises_iff:
+                self.raise_if(st, cz, exc, f"call {short}")
+            else:
+                flag = fresh(f"raises_{exc}", B)
+                self.raise_if(st, z3.And(flag, cz), exc, f"call {short}")
         # --- result + ensures
         res = self.result_symbol(c, st)
         post_view = st.clone()
@@ -2034,6 +2198,13 @@ class Exec:
         try:
             for nm, e in c.ensures.items():
                 st.assume(self.spec_bool(e, post_view))
+            if c.ensures_each and isinstance(res, VList) and res.ek == "ref":
+                kk = fresh("k", I)
+                ev = post_view.clone()
+                ev.in_binder += 1
+                ev.store["node"] = VRef(res.arr[kk])
+                for nm, e in c.ensures_each.items():
+                    st.assume(z3.ForAll([kk], z3.Implies(z3.And(0 <= kk, kk < res.n), self.spec_bool(e, ev))))
         finally:
             self.force_uf = saved_fu
         return res
@@ -2119,6 +2290,39 @@ class Exec:
         return elem_val(ret, z)
 
 
+def ground_links(goal, opaque=False):
+    """Defining equations of the ground SLICE(...) terms of a goal: a clause evaluated under a binder uses the uninterpreted symbol;
+    once the clause has been instantiated (peeled last element, quantifier-free goal) the instance needs its definition."""
+    if opaque:
+        return []
+    from .values import str_slice
+
+    out, seen = [], set()
+
+    def has_var(e):
+        return any(z3.is_var(x) for x in _subterms(e))
+
+    def walk(e):
+        if e.get_id() in seen:
+            return
+        seen.add(e.get_id())
+        if z3.is_quantifier(e):
+            walk(e.body())
+            return
+        if z3.is_app(e):
+            if e.decl().name() == "SLICE" and e.num_args() == 3 and not has_var(e):
+                x, a, b = e.arg(0), e.arg(1), e.arg(2)
+                n = z3.Length(x)
+                out.append(z3.And(z3.Implies(z3.And(0 <= a, a <= b), z3.And(e == z3.SubString(x, a, b - a), z3.Length(e) == z3.If(b <= n, b - a, z3.If(a <= n, n - a, 0)))),
+                                  z3.Implies(z3.And(0 <= b, b < a), e == z3.StringVal("")),
+                                  z3.Implies(z3.Or(a < 0, b < 0), e == str_slice(x, a, b))))
+            for c in e.children():
+                walk(c)
+
+    walk(goal)
+    return out[:8]
+
+
 def split_goal(g, depth=0):
     """One query per clause: split top-level conjunctions, also under a universal quantifier / implication."""
     if depth > 3:
@@ -2130,6 +2334,12 @@ def split_goal(g, depth=0):
         return out
     if z3.is_implies(g) and z3.is_and(g.arg(1)):
         return [z3.Implies(g.arg(0), c) for c in split_goal(g.arg(1), depth + 1)]
+    if z3.is_or(g) and sum(1 for c in g.children() if z3.is_and(c)) == 1:
+        # (A1 and A2 ...) or X   ==   (A1 or X) and (A2 or X) ...      (the simplified shape of  X' ==> A1 and A2 ...)
+        kids = g.children()
+        conj = next(c for c in kids if z3.is_and(c))
+        rest = [c for c in kids if not z3.is_and(c)]
+        return [z3.Or(c, *rest) for c in split_goal(conj, depth + 1)]
     if z3.is_quantifier(g) and g.is_forall():
         b = g.body()
         if z3.is_implies(b) and z3.is_and(b.arg(1)) or z3.is_and(b):
@@ -2159,6 +2369,11 @@ def _peel_last(g):
             hi = z3.simplify(c.arg(1))
             # hi == t + 1 ?
             t = z3.simplify(hi - 1)
+            if z3.is_int_value(hi) and 1 <= hi.as_long() <= 6:
+                # a list of known length: one instance per element
+                rest = [x for j, x in enumerate(conds) if j != idx]
+                body = z3.Implies(z3.And(*rest) if rest else z3.BoolVal(True), b.arg(1))
+                return [z3.simplify(z3.substitute(body, (k, z3.IntVal(j)))) for j in range(hi.as_long())]
             if z3.is_add(hi) and any(z3.is_int_value(a) and a.as_long() >= 1 for a in hi.children()) and not any(k.eq(x) for x in _subterms(hi)):
                 rest = [x for j, x in enumerate(conds) if j != idx]
                 lower_part = z3.ForAll([k], z3.Implies(z3.And(*rest, k < t), b.arg(1)))
@@ -2184,14 +2399,14 @@ def _next_id():
     return _idc[0]
 
 
-def split_top(s: str):
+def split_top(s: str, sep: str = ","):
     out, depth, cur = [], 0, ""
     for ch in s:
-        if ch == "[":
+        if ch in "[(":
             depth += 1
-        if ch == "]":
+        if ch in "])":
             depth -= 1
-        if ch == "," and depth == 0:
+        if ch == sep and depth == 0:
             out.append(cur)
             cur = ""
         else:
